@@ -361,6 +361,35 @@ mutual
     | g :: gs => let v := validRef flag g; if v.valid then validRefList flag gs else v
 end
 
+/-! ### every broken rule (not only the first one IsValidOp meets)
+
+The property asks that the reported location lie "at a place where the named rule is broken"; it does not ask for the
+first rule in IsValidOp's order.  When the structural rules hold, a geometry can break several topological rules at once
+(a shell that touches itself so that a hole hanging at the touch point lies outside it: hole outside shell *and*
+disconnected interior) and IsValidOp's local shortcuts may meet them in a different order.  `allBroken` evaluates each
+topological rule on its own, so that a reported code can be judged against the rule it names. -/
+
+def polygonalAll (flag : Bool) (polys : List (List VSeq)) : List Verdict :=
+  let nonEmpty := polys.filter fun rings => match rings with | sh :: _ => !sh.pts.isEmpty | [] => false
+  if nonEmpty.isEmpty then [] else
+  let structural := polys.flatMap fun rings =>
+    [fun (_ : Unit) => coordRule rings, fun (_ : Unit) => closedRule rings, fun (_ : Unit) => sizeRule 4 rings]
+  if !(firstOf structural).valid then [] else
+  let geo : List (List (List Pt)) := nonEmpty.map fun rings => rings.map fun s => dedup s.pts
+  [areaIntersections flag (polySegs geo), holesInShell geo, holesNotNested geo,
+   (if geo.length ≤ 1 then none else shellsNotNested geo), interiorConnected geo].filterMap id
+
+mutual
+  def allBroken (flag : Bool) : VG → List Verdict
+    | .polygon rings => polygonalAll flag [rings]
+    | .multiPolygon polys => polygonalAll flag polys
+    | .collection gs => allBrokenList flag gs
+    | _ => []
+  def allBrokenList (flag : Bool) : List VG → List Verdict
+    | [] => []
+    | g :: gs => allBroken flag g ++ allBrokenList flag gs
+end
+
 /-! ### simplicity -/
 
 structure LSeg where
